@@ -5,14 +5,15 @@ from .common import guarded, run_model, rats, rows, fracs, close, numerator_of
 from .npcutil import scripted_experiment
 
 RULE = ("westfall_young driven by a scripted Randomizer and table-lookup test functions over generated integer "
-        "tables (reps 1..25, 1..4 hypotheses, negative and tied statistics; observed row extreme / central / equal to "
+        "tables (reps 1..25, 1..4 hypotheses, negative, tied and infinite statistics; observed row extreme / central / equal to "
         "a simulated row), methods minP and maxT, alternatives greater / two-sided as string or per-test list, both "
         "in_place; every row of tables with <= 8 rows rotated into the observed position (exact FWER); "
         "non-trivial = more than one hypothesis or a tie with the observed statistic; distinct by table and options")
 LEVEL = ("theorems wy_minp_raw_spec, wy_minp_adj_ge_raw, wy_minp_range, wy_minp_order, wy_minp_min_is_rank, "
          "wy_minp_fwer_exact (+ maxT analogues) for every table; Relabel.wy_minp_relabel / wy_maxt_relabel (relabelling equivariance for distinct raw p-values / statistics, every relabelling); model validated against npc.westfall_young")
 ASSUMPTIONS = ["maxT with a per-test list mixing 'greater' and 'two-sided' is not modelled (the sort key of the code depends on the "
-               "last test only); mixed lists are checked for minP"]
+               "last test only); mixed lists are checked for minP",
+               "+-inf statistics are passed to the exact oracle and the model as +-10^6 (an order embedding: only comparisons, negation and absolute values are taken); NaN statistics are outside the domain"]
 
 
 def stepdown_oracle(ts, tv, method, two):
@@ -66,7 +67,23 @@ def gen(ctx):
         ts = [sorted(r[c] for r in tv)[reps // 2] for c in range(m)]
     else:
         ts = [ctx.rng.randint(-hi, hi) for _ in range(m)]
+    if ctx.rng.random() < 0.12:
+        # infinite statistics (a t statistic with zero pooled variance is +-inf on legal data): ordered like any other value
+        mode = "infinite"
+        for c in range(m):
+            if ctx.rng.random() < 0.7:
+                s_ = ctx.rng.choice([INF, INF, -INF])
+                if ctx.rng.random() < 0.8:
+                    ts[c] = s_
+                for r in tv:
+                    if ctx.rng.random() < 0.25:
+                        r[c] = s_ if ctx.rng.random() < 0.8 else -s_
     return reps, m, tv, ts, mode
+
+
+INF = float("inf")
+BIG = 10**6          # order-embedding of +-inf for the exact oracle and the model (all finite |statistics| are <= 9)
+emb = lambda v: BIG if v == INF else (-BIG if v == -INF else v)
 
 
 def run(ctx):
@@ -97,7 +114,8 @@ def run(ctx):
             det.update({"issue": "call failed", "returned": r[1:]}); ctx.violation("oracle", det, site="westfall_young"); continue
         adj, raw = r[1]
         adjl = [float(adj[c]) for c in range(m)]; rawl = [float(raw[c]) for c in range(m)]
-        wadj, wraw = stepdown_oracle(ts, tv, method, two)
+        tsq, tvq = [emb(v) for v in ts], [[emb(v) for v in r_] for r_ in tv]
+        wadj, wraw = stepdown_oracle(tsq, tvq, method, two)
         why = None
         if not all(close(a_, b_) for a_, b_ in zip(rawl, wraw)):
             why = "raw p-values are not (count+1)/(reps+1)"
@@ -111,7 +129,7 @@ def run(ctx):
             det.update({"issue": why, "returned": [adjl, rawl], "expected": [[float(v) for v in wadj], [float(v) for v in wraw]]})
             ctx.violation("oracle", det, site="westfall_young"); continue
         # relabelling permutes the result (distinct raw p-values for minP / distinct statistics for maxT)
-        key = wraw if method == "minP" else [abs(Fr(v)) if two[0] else Fr(v) for v in ts]
+        key = wraw if method == "minP" else [abs(Fr(v)) if two[0] else Fr(v) for v in tsq]
         if m > 1 and len(set(key)) == m and (method == "minP" or len(set(two)) == 1):
             perm = list(range(m)); ctx.rng.shuffle(perm)
             e2, tests2, _ = scripted_experiment([[row[j] for j in perm] for row in tv], [ts[j] for j in perm])
@@ -122,9 +140,9 @@ def run(ctx):
                             "returned": r2[1:] if r2[0] != "ok" else [float(r2[1][0][k]) for k in range(m)], "original": adjl})
                 ctx.violation("oracle", det, site="westfall_young"); continue
         if method == "minP":
-            ops.append(f"wyminp|{' '.join('1' if t_ else '0' for t_ in two)}|{rats(ts)}|{rows(tv)}")
+            ops.append(f"wyminp|{' '.join('1' if t_ else '0' for t_ in two)}|{rats(tsq)}|{rows(tvq)}")
         elif len(set(two)) == 1:
-            ops.append(f"wymaxt|{int(two[0])}|{rats(ts)}|{rows(tv)}")
+            ops.append(f"wymaxt|{int(two[0])}|{rats(tsq)}|{rows(tvq)}")
         else:
             continue
         meta.append((det, adjl, rawl))
